@@ -22,6 +22,63 @@ def ctype_bits(t):
     return None
 
 
+def node_reset_helpers(unit):
+    """{function name: fields of its argument it clears} for the functions of the unit that provably do nothing but store 0/NULL into fields of the
+    Initializer tree they are handed: `void f(Initializer *)`, every assignment stores a zero constant, no ++/--/compound assignment on anything but a
+    local variable, no call except to itself"""
+    cache = getattr(unit, '_c05_node_resets', None)
+    if cache is not None:
+        return cache
+    out = {}
+    for name, f in getattr(unit, 'functions', {}).items():
+        try:
+            params = [c for c in f.inner if c.kind == 'ParmVarDecl']
+            if len(params) != 1 or (params[0].type or '').replace(' ', '') != 'Initializer*' or not (f.type or '').startswith('void ('):
+                continue
+            if not [c for c in f.inner if c.kind == 'CompoundStmt']:
+                continue
+            ok, fields, nasg = True, [], 0
+            for n in f.walk():
+                if n.kind == 'CallExpr' and n.callee() != name:
+                    ok = False
+                elif n.kind == 'CompoundAssignOperator':
+                    ok = False
+                elif n.kind == 'UnaryOperator' and n.opcode in ('++', '--'):
+                    t = n.inner[0].strip()
+                    if not (t.kind == 'DeclRefExpr' and t.ref_kind == 'VarDecl'):
+                        ok = False
+                elif n.kind == 'BinaryOperator' and n.opcode == '=':
+                    nasg += 1
+                    if n.inner[1].strip_all().int_value() != 0:
+                        ok = False
+                        break
+                    l = n.inner[0].strip()
+                    if l.kind == 'MemberExpr' and l.inner and l.inner[0].strip().kind == 'DeclRefExpr' and l.inner[0].strip().ref_name == params[0].name:
+                        fields.append(l.name)
+                if not ok:
+                    break
+            if ok and nasg:
+                out[name] = fields
+        except Exception:
+            continue
+    try:
+        unit._c05_node_resets = out
+    except Exception:
+        pass
+    return out
+
+
+def _reset_model(name, fields):
+    def f(it, ctx, n, a):
+        o = it.settle(a[0]) if a and isinstance(a[0], View) else (a[0] if a else None)
+        if isinstance(o, Obj):
+            for fl in fields:
+                o.fields[fl] = 0
+        ctx.emit('node-reset', name, a, n.line)
+        return None
+    return f
+
+
 class TInterp(Interp):
     """Interp that remembers C types where the rules of C05 need them:
        * `*p` / `p[i]` through an opaque pointer -> place described by Term('mem', address, ctype)
@@ -35,6 +92,14 @@ class TInterp(Interp):
         # `for (;;) { if (end) break; ... }` is the same loop as `while (!end) { ... }`: bound it like one (the engine default of 64
         # iterations, each forking on an opaque condition, does not terminate)
         cfg.setdefault('forever_limit', cfg.get('loop_limit', 1) + 1)
+        if not cfg.get('native_node_resets'):
+            # helpers that do nothing but clear fields of an Initializer tree (effect summary decided by node_reset_helpers) are not walked over
+            # the lazy trees of the cursor / separator / string worlds: their effect on the node handed in is applied, the descendants stay lazy
+            models = dict(cfg.get('models') or {})
+            for name, fields in node_reset_helpers(unit).items():
+                if name not in models and name not in (cfg.get('cut') or {}) and name not in (cfg.get('opaque') or ()):
+                    models[name] = _reset_model(name, fields)
+            cfg['models'] = models
         Interp.__init__(self, program, unit, cfg)
 
     def place(self, n, env):
